@@ -241,7 +241,7 @@ def run(ctx):
     work = os.path.join(ctx.workdir, "c09-%d" % ctx.shard)
     os.makedirs(work, exist_ok=True)
     rng = ctx.rng("c09")
-    ncase = 150 if ctx.quick else 4000
+    ncase = 150 if ctx.quick else 10000
     units = ["main:rdd2", "main:rdd2_loglinear", "main:bezier", "algorithms:mrp", "algorithms:sim", "codegen:mrp", "codegen:sim", "codegen:mr_ref_traj",
              "direct:rdd2", "direct:rdd2_loglinear", "direct:bezier", "sequence:all"] + ["options:%d" % i for i in range(5)]
     for i, u in enumerate(units):
